@@ -521,3 +521,106 @@ func (c *Ctx) ruleNoNondet() {
 		c.ok("NO-NONDET", "product code", "", "no clock, randomness, pointer formatting; environment read by package config only")
 	}
 }
+
+// ruleMapIterators (C11, tenth round): maps.Keys / maps.Values / maps.All hand out the entries in the map's iteration
+// order, which differs from run to run; their result may be consumed only by something that does not keep the
+// order - slices.Sorted / SortedFunc / SortedStableFunc, or a `range` whose body is judged like a range over the
+// map itself would be (not modelled: reported).
+func (c *Ctx) ruleMapIterators() {
+	P := c.P
+	n := 0
+	for _, fn := range P.ModFuncs {
+		allInstrs(fn, func(b *ssa.BasicBlock, ins ssa.Instruction) {
+			call, ok := ins.(*ssa.Call)
+			if !ok || call.Call.StaticCallee() == nil {
+				return
+			}
+			name := FuncName(call.Call.StaticCallee())
+			if i := strings.Index(name, "["); i >= 0 {
+				name = name[:i]
+			}
+			if name != "maps.Keys" && name != "maps.Values" && name != "maps.All" {
+				return
+			}
+			n++
+			cons := fmt.Sprintf("%s#%s%d", FuncName(fn), name, n)
+			bad := ""
+			if refs := call.Referrers(); refs != nil {
+				for _, r := range *refs {
+					switch u := r.(type) {
+					case *ssa.DebugRef:
+					case *ssa.Call:
+						un := ""
+						if u.Call.StaticCallee() != nil {
+							un = FuncName(u.Call.StaticCallee())
+							if i := strings.Index(un, "["); i >= 0 {
+								un = un[:i]
+							}
+						}
+						switch un {
+						case "slices.Sorted", "slices.SortedFunc", "slices.SortedStableFunc":
+						default:
+							bad = "handed to " + un
+						}
+					default:
+						bad = fmt.Sprintf("used by %T", r)
+					}
+				}
+			}
+			c.check(bad == "", "MAP-ORDER", cons, P.Pos(call.Pos()), "the entries of the map are sorted before anything depends on their order",
+				"the entries of a map are taken in iteration order ("+bad+"): a list or a text built from them differs between runs")
+		})
+	}
+	c.count("maps.Keys / Values / All calls", n)
+}
+
+// ruleSyntaxReadOnly (C11, tenth round): the syntax trees of a pass are shared by the analyzers that run
+// concurrently on the package (the annotation reader, the @ignore reader, the checkers): no product code assigns to
+// a field or an element of a go/ast node that it did not allocate itself.
+func (c *Ctx) ruleSyntaxReadOnly() {
+	P := c.P
+	n := 0
+	for _, fn := range P.ModFuncs {
+		allInstrs(fn, func(b *ssa.BasicBlock, ins ssa.Instruction) {
+			st, ok := ins.(*ssa.Store)
+			if !ok {
+				return
+			}
+			var base ssa.Value
+			switch a := st.Addr.(type) {
+			case *ssa.FieldAddr:
+				base = a.X
+			case *ssa.IndexAddr:
+				base = a.X
+			default:
+				return
+			}
+			// the node (or, for an element, the list read from a node)
+			isAst := func(t types.Type) bool {
+				nm, ok := deref(t).(*types.Named)
+				return ok && nm.Obj().Pkg() != nil && nm.Obj().Pkg().Path() == "go/ast"
+			}
+			node := base
+			if !isAst(node.Type()) {
+				// x.List[i] = ...: the list is a field of a node
+				ld, ok := base.(*ssa.UnOp)
+				if !ok {
+					return
+				}
+				fa, ok := ld.X.(*ssa.FieldAddr)
+				if !ok || !isAst(fa.X.Type()) {
+					return
+				}
+				node = fa.X
+			}
+			n++
+			own := P.RootsAllDeep(node, func(r ssa.Value) bool {
+				al, ok := r.(*ssa.Alloc)
+				return ok && P.IsProductFunc(al.Parent())
+			})
+			c.check(own, "SHARED-RO", fmt.Sprintf("%s#syntax-write%d", FuncName(fn), n), P.Pos(st.Pos()), "the node written to was allocated here",
+				"a field of a syntax node of the pass is assigned ("+short(P.Desc(st.Addr))+"): the tree is shared with the analyzers running concurrently on the package - a data race, and what they see depends on the schedule")
+		})
+	}
+	c.count("writes to go/ast nodes", n)
+}
